@@ -2,25 +2,45 @@ import PyPhysim.Model.Proto
 import PyPhysim.Model.C12
 open PyPhysim.Proto PyPhysim.C12
 
+/-!
+Driver of the C12 model at exact rationals.
+
+`wf gains=<p/q,...> P=<p/q> N=<p/q> Es=<p/q>`
+   → `p=<p/q,...> mu=<p/q> kept=<k> margin=<p/q>`  |  `error:<PyErr>`
+
+`p`, `mu` are the value of `PyPhysim.C12.doWFRat` (= `doWF` at `Rat`).  `kept` (number of non-zero entries of
+`p`) and `margin` are bookkeeping for the harness only: `margin` is the smallest distance
+`|sum(Ps) − P| / max(|sum(Ps)|, |P|, minMu)` over the loop tests the run performed; when
+it is below 1e-9 the harness does not compare the discrete number of switched-off
+channels (binary64 may legitimately decide a tie the other way; the allocation itself is
+continuous there and is still compared).
+-/
+
 def ratAbs (x : Rat) : Rat := if x < 0 then -x else x
 def ratMax (x y : Rat) : Rat := if x < y then y else x
 
-/-- smallest distance |T - P| / max(|T|,|P|,minMu) over the loop tests actually
-    performed (those up to and including the one that stopped the loop) -/
+/-- `(sum(Ps), minMu)` of every loop stage in `O(n)` from suffix sums:
+    stage `w :: rest` has `sum(Ps) = (|rest|+1)·level w − Σ_{x ∈ w :: rest} level x` -/
+def stageTests (N Es : Rat) (asc : List (Chan Rat)) : List (Rat × Rat) :=
+  (asc.foldr (fun x (acc : Rat × Nat × List (Rat × Rat)) =>
+      let l := level N Es x
+      let s := acc.1 + l
+      let k := acc.2.1 + 1
+      (s, k, ((k : Rat) * l - s, l) :: acc.2.2)) (0, 0, [])).2.2
+
 def margin (P : Rat) (tests : List (Rat × Rat)) (performed : Nat) : Rat :=
   (tests.take performed).foldl
     (fun m t => let d := ratAbs (t.1 - P) / ratMax (ratMax (ratAbs t.1) (ratAbs P)) (ratAbs t.2)
                 if d < m then d else m) 1
 
 def showRes (g : List Rat) (P N Es : Rat) : String :=
-  match doWF g P N Es with
+  match doWFRat g P N Es with
   | .error e => "error:" ++ toString e
   | .ok (p, mu) =>
-    let asc := argsortAsc g
-    let k := keptCount asc P N Es
-    let performed := asc.length - k + 1
+    let k := (p.filter (fun x => x != 0)).length
+    let performed := g.length - k + 1
     "p=" ++ showList showRat p ++ " mu=" ++ showRat mu ++ " kept=" ++ toString k
-      ++ " margin=" ++ showRat (margin P (loopTests N Es asc) performed)
+      ++ " margin=" ++ showRat (margin P (stageTests N Es (argsortAsc g)) performed)
 
 def handle : List String → String
   | "wf" :: rest =>
